@@ -30,7 +30,7 @@ THEOREMS = [
 TRUSTED_BASE = common.TRUSTED_BASE_COMMON
 ASSUMPTIONS = ["convergence is a relation between two executions and is tested, not proved",
                "known findings D8 (default rerun offers the fail command) and D9 (rerun with nothing to rerun is accepted)"]
-FAM = progs.family(unique_writers=True, per_task=True, twin=True, p_loop=0.0, p_late_join=0.0, p_other_abend=0.06,
+FAM = progs.family(unique_writers=True, per_task=True, twin=True, p_loop=0.0, p_late_join=0.0, p_other_abend=0.12,
                    p_retry=0.0, p_fail=0.3, p_item_fail=0.2, p_items=0.2, p_cmd=0.1, n_tasks=(2, 7),
                    w_rerun=2.5, w_rerun_any=0.5, w_ctrl=0.5, steps=(15, 70))
 
